@@ -138,4 +138,14 @@ func VerifH_C16_Base() {
 	_, connectErr = cli.Connect(context.Background(), "cid")
 	connectReturned = true
 	verifEvent("connect-returned")
+	if d := cli.Done(); d != nil {
+		<-d
+		verifLock()
+		dc := disconnectCalled
+		verifUnlock()
+		if !dc {
+			// the connection ended on its own: the moment Done() is closed, the error that ended it is visible
+			verifAssert(cli.Err() != nil, "C16.err_visible_when_done_closes")
+		}
+	}
 }
